@@ -3,6 +3,7 @@ package main
 import (
 	"fmt"
 	"reflect"
+	"sort"
 	"strings"
 	"time"
 
@@ -127,6 +128,7 @@ func c17History(c *ctx, t typeSpec, ops []setOp, how string) {
 					expected[o.key] = v
 				}
 			}
+			check(i + 1)
 			steps = append(steps, dumpRes(r, fields))
 		}
 		return oL(steps)
@@ -184,6 +186,30 @@ func c17History(c *ctx, t typeSpec, ops []setOp, how string) {
 			steps = append(steps, dumpRes(w, fields))
 		}
 		wrapObs = oL(steps)
+	}
+	// a resource created by New() of a used resource is fresh: the type's name and fields, all zero values
+	for _, wrapped := range []bool{false, true} {
+		if key != "" {
+			break
+		}
+		p, pv := guard(func() {
+			src := buildRes(t, wrapped, ops)
+			fresh := src.(interface{ New() jsonapi.Resource }).New()
+			if fresh.GetType().Name != t.name || oStruct(fresh) != oStruct(src) {
+				key, detail = "new-resource-other-type", fmt.Sprintf("wrapped=%v", wrapped)
+			}
+			if fresh.Get("id") != "" {
+				key, detail = "new-resource-not-zero", fmt.Sprintf("wrapped=%v id=%q", wrapped, fresh.Get("id"))
+			}
+			for _, f := range t.fields {
+				if !sameValue(fresh.Get(f.name), zeroOf(f)) {
+					key, detail = "new-resource-not-zero", fmt.Sprintf("wrapped=%v %s = %s", wrapped, f.name, descValue(fresh.Get(f.name)))
+				}
+			}
+		})
+		if p && key == "" {
+			key, detail = "new-panics", fmt.Sprint(pv)
+		}
 	}
 	nnil := 0
 	for _, o := range ops {
@@ -396,13 +422,43 @@ func c17Equal(c *ctx, a, b builtRes, how string) {
 	if !okA || !okB {
 		return
 	}
+	// what the two resources hold is read BEFORE the helpers run
+	names := sameNameSets(ra, rb)
+	differ := ""
+	if ra.GetType().Name != rb.GetType().Name {
+		differ = "type name"
+	} else if !names {
+		differ = "field names"
+	} else {
+		for k := range ra.Attrs() {
+			if !sameValue(ra.Get(k), rb.Get(k)) {
+				differ = "value of " + k
+			}
+		}
+		for k := range ra.Rels() {
+			if !sameValue(ra.Get(k), rb.Get(k)) {
+				differ = "value of " + k
+			}
+		}
+	}
+	allFields := func(r jsonapi.Resource) []string {
+		fs := []string{"id"}
+		for k := range r.Attrs() {
+			fs = append(fs, k)
+		}
+		for k := range r.Rels() {
+			fs = append(fs, k)
+		}
+		sort.Strings(fs)
+		return fs
+	}
+	dumpA, dumpB := dumpRes(ra, allFields(ra)), dumpRes(rb, allFields(rb))
 	o1, e1, p1 := boolRes(func() bool { return jsonapi.Equal(ra, rb) })
 	o2, e2, p2 := boolRes(func() bool { return jsonapi.Equal(rb, ra) })
 	o3, e3, p3 := boolRes(func() bool { return jsonapi.EqualStrict(ra, rb) })
 	o4, e4, p4 := boolRes(func() bool { return jsonapi.Equal(ra, ra) })
 	obs := oL([]string{o1, o2, o3, o4})
 	var key, detail string
-	names := sameNameSets(ra, rb)
 	// the recorded finding: fields are paired by position after sorting and their
 	// names never compared -- it can only show when both sides have the same
 	// number of attributes and of relationships
@@ -427,22 +483,8 @@ func c17Equal(c *ctx, a, b builtRes, how string) {
 	if !p1 && !p2 && e1 != e2 {
 		fail("equal-not-symmetric", fmt.Sprintf("Equal(a,b)=%v Equal(b,a)=%v", e1, e2))
 	}
-	differ := ""
-	if ra.GetType().Name != rb.GetType().Name {
-		differ = "type name"
-	} else if !names {
-		differ = "field names"
-	} else {
-		for k := range ra.Attrs() {
-			if !sameValue(ra.Get(k), rb.Get(k)) {
-				differ = "value of " + k
-			}
-		}
-		for k := range ra.Rels() {
-			if !sameValue(ra.Get(k), rb.Get(k)) {
-				differ = "value of " + k
-			}
-		}
+	if dumpRes(ra, allFields(ra)) != dumpA || dumpRes(rb, allFields(rb)) != dumpB {
+		fail("equal-changes-what-get-reads", "Get reads another value after Equal / EqualStrict ran")
 	}
 	if !p1 && e1 && differ != "" {
 		fail("equal-true-but-different", "Equal(a,b) although they differ in "+differ)
@@ -520,6 +562,15 @@ func runC17Equal(c *ctx) {
 						}
 					}
 					c17Equal(c, a, builtRes{t, wb, append(append([]setOp{}, ops...), setOp{f.name, v})}, "value-differs")
+					// a to-many relationship holding the same IDs in another order
+					for _, g := range t.fields {
+						if g.rel && !g.toOne {
+							opsA := append(append([]setOp{}, ops...), setOp{g.name, []string{"u3", "u1", "u2"}})
+							opsB := append(append([]setOp{}, ops...), setOp{g.name, []string{"u1", "u2", "u3"}})
+							c17Equal(c, builtRes{t, wa, opsA}, builtRes{t, wb, opsB}, "to-many-order-differs")
+							break
+						}
+					}
 					// one field renamed
 					t3 := cloneSpec(t)
 					t3.fields[fi].name = "renamed"
